@@ -32,6 +32,10 @@ func runC17(c *Ctx) {
 	checkFreshScratchState(c, "R17i", []string{pSqlite, pMysql, pPostgres})
 	c.Rule("R17k", ruleTextScratchStates, 2)
 	checkScratchStates(c, "R17k")
+	c.Rule("R17m", ruleTextReverseFromDropped, 3)
+	checkReverseFromDropped(c, "R17m")
+	c.Rule("R17n", ruleTextDetachedCopy, 2)
+	checkDetachedCopy(c, "R17n")
 	c.Rule("R17l", ruleTextReverseRestoresGuarded, 2)
 	checkReverseRestoresGuarded(c, "R17l")
 	c.Rule("R17j", ruleTextReversal, 1)
